@@ -618,3 +618,24 @@ def called_helpers(source, text, defined_text, limit=8):
             out.append(sp)
             todo.append(sp.text)
     return out
+
+
+def referenced_consts(source, text, defined_text, limit=8):
+    """`const NAME` / `static NAME` items of `source` (any nesting level) whose ALL_CAPS name occurs in `text` and that `defined_text`
+    does not define: lets a slice follow a literal that was factored out into a named constant."""
+    import re
+    out = []
+    defined = set(re.findall(r"\b(?:const|static)\s+(?:ref\s+)?([A-Z][A-Z0-9_]*)", defined_text))
+    for nm in sorted(set(re.findall(r"\b[A-Z][A-Z0-9_]{2,}\b", text))):
+        if nm in defined or len(out) >= limit:
+            continue
+        for kw in ("const ", "static "):
+            try:
+                sp = source.find(kw + nm)
+            except SliceError:
+                continue
+            if "lazy_static" in sp.text or "Regex" in sp.text or "phf" in sp.text:
+                break
+            out.append(sp)
+            break
+    return out
